@@ -3,7 +3,8 @@
    read mentions.  Static part: Lang/GcProof.v (gc_fixed_form).  Here: the
    wire allocator's ownership invariant along the execution. *)
 From Coq Require Import NArith ZArith List Bool Arith Lia Permutation.
-From Mpc Require Import Circuit.Circuit Lang.Gc Lang.GcProof Proto.Stream.
+From Coq Require Import FMapPositive.
+From Mpc Require Import Circuit.Circuit Lang.Gc Lang.GcProof Proto.Stream Proto.StreamProof Proto.StreamSimProof.
 Import ListNotations.
 Local Open Scope nat_scope.
 
@@ -953,7 +954,465 @@ Section Dyn.
         cbn [gcid gc_instr igc]. apply Hal', Hi.
       + intros w'' gcd' G'' Hl''. apply (IH (E ++ [s]) w'' defd' gcd' E1 G'' Hrel' Hl'').
   Qed.
+
+  (* ------------------------------------------------------------------ *)
+  (** * The value relation along the run: streamed store vs reference env *)
+
+  Definition vpos_ops (s : instr) : list val :=
+    flat_map (fun j => match nth_error (iin s) j with Some i => [i] | None => [] end)
+             (value_positions (iop s) (length (iin s))).
+  Definition vused (l : list instr) : list N := flat_map (fun s => map vid (vpos_ops s)) l.
+
+  Definition rd (st : sstate) (id : N) : bool := sfind false (cs_wires (ss_cs st)) id.
+
+  Definition Rel (st : sstate) (e : env) (rest : list instr) : Prop :=
+    forall v b, lookup v e = Some b -> In v (vused rest) ->
+      allocated (ss_w st) v = true /\ map (rd st) (ids_of (ss_w st) v) = b.
+
+  Definition Bd (e : env) (E : list instr) : Prop :=
+    forall k, In k (outs_l E ++ map fst args) \/ In k Kt -> exists b, lookup k e = Some b.
+
+  Definition simres (a : option sstate) (b : option (env * list bool)) : Prop :=
+    match a, b with
+    | Some stf, Some (_, retf) => map (rd stf) (ss_ret stf) = retf
+    | None, None => True
+    | _, _ => False
+    end.
+
+  (* extra facts about the steps the simulation needs *)
+  Definition sok2 (s : instr) : Prop :=
+    (forall i, In i (vpos_ops s) -> vconst i = true -> In (vid i) Kt) /\
+    (iop s = OSlice -> forall o, iout s = Some o ->
+       (0 <= nth 1 (map vcint (iin s)) 0)%Z /\ (nth 1 (map vcint (iin s)) 0 < nth 2 (map vcint (iin s)) 0)%Z /\
+       Z.to_nat (nth 2 (map vcint (iin s)) 0%Z) - Z.to_nat (nth 1 (map vcint (iin s)) 0%Z) = vbits o) /\
+    (iop s = OGen -> forall o, iout s = Some o ->
+       let c := cc_c (nth (icirc s) circs cc0) in
+       wf c = true /\ ninputs c = sum_bits (iin s) /\ noutputs c = vbits o /\ ninputs c + noutputs c <= nwires c).
+  Hypothesis Hsok2 : Forall sok2 steps0.
+  Hypothesis Hretlast : forall E s later, steps0 = E ++ s :: later -> iop s = ORet -> later = [].
+
+  Lemma vpos_in s i : In i (vpos_ops s) -> In i (iin s).
+  Proof.
+    unfold vpos_ops. intros H. apply in_flat_map in H as (j & _ & H).
+    destruct (nth_error (iin s) j) eqn:E; [|destruct H]. destruct H as [<-|[]]. eapply nth_error_In; eauto.
+  Qed.
+
+  Lemma vused_cons s l v : In v (vused l) -> In v (vused (s :: l)).
+  Proof. intros H. unfold vused. cbn [flat_map]. apply in_or_app. auto.
+  Qed.
+
+  Lemma nth_map_error {A B} (h : A -> B) l j x d : nth_error l j = Some x -> nth j (map h l) d = h x.
+  Proof. intros H. apply (map_nth_error h) in H. apply nth_error_nth. exact H. Qed.
+
+  Lemma vpos_at s j i : In j (value_positions (iop s) (length (iin s))) -> nth_error (iin s) j = Some i -> In i (vpos_ops s).
+  Proof. intros Hj E. unfold vpos_ops. apply in_flat_map. exists j. split; [exact Hj|]. rewrite E. left. reflexivity. Qed.
+
+  (* the bits found on an operand's (padded) wire ids are its reference bits *)
+  Lemma operand_rel st e s later w1 i :
+    ss_zero st = zero -> rd st zero = false ->
+    Rel st e (s :: later) -> ext (ss_w st) w1 ->
+    In i (vpos_ops s) -> (exists b, lookup (vid i) e = Some b) ->
+    map (rd st) (pad_operand N zero (vsigned i) (vbits i) (ids_of w1 (vid i))) = operand_bits e i.
+  Proof.
+    intros Hz Hrz HR (_ & X2 & _) Hi (b & Lb).
+    assert (Hu : In (vid i) (vused (s :: later))).
+    { unfold vused. cbn [flat_map]. apply in_or_app. left. apply in_map, Hi. }
+    destruct (HR _ _ Lb Hu) as [Ha Hm].
+    rewrite (pad_operand_map N bool (rd st) zero), Hrz, (X2 _ Ha), Hm.
+    unfold operand_bits. rewrite Lb. reflexivity.
+  Qed.
+
+  (* the rewiring depends on the old content of the result only through its
+     length when the result is filled completely *)
+  Lemma alias_ids_old {A} (z : A) o ins cs old old' obits :
+    length old = length old' -> length old = obits ->
+    (o = OSlice -> Z.to_nat (nth 2 cs 0%Z) - Z.to_nat (nth 1 cs 0%Z) = obits) ->
+    alias_ids A z o ins cs old obits = alias_ids A z o ins cs old' obits.
+  Proof.
+    intros Hl Ho Hs. unfold alias_ids. rewrite <- Hl.
+    destruct o; try reflexivity.
+    - (* slice *)
+      specialize (Hs eq_refl). unfold nz. rewrite Hs.
+      destruct (_ || _); [reflexivity|]. rewrite Ho, Nat.ltb_irrefl.
+      rewrite !skipn_all2 by lia. reflexivity.
+    - destruct (nth 0 ins []); rewrite Ho, Nat.ltb_irrefl; rewrite ?skipn_all2 by lia; reflexivity.
+    - destruct (nth 0 ins []); [reflexivity|]. rewrite Ho, Nat.ltb_irrefl. rewrite !skipn_all2 by lia. reflexivity.
+    - destruct (_ || _); [reflexivity|]. rewrite Ho, Nat.ltb_irrefl. rewrite !skipn_all2 by lia. reflexivity.
+  Qed.
+
+  Lemma vused_class l v : (forall t, In t l -> In t steps0) -> In v (vused l) -> In v (ncops_l l) \/ ~ In v NC.
+  Proof.
+    intros Hl Hv. unfold vused in Hv. apply in_flat_map in Hv as (t & Ht & Hv).
+    apply in_map_iff in Hv as (i & <- & Hi). apply vpos_in in Hi.
+    destruct (proj1 (Forall_forall _ _) Hsok t (Hl t Ht)) as [_ Hops].
+    destruct (vconst i) eqn:C; [right; apply (Hops i Hi), C|].
+    left. unfold ncops_l. apply in_flat_map. exists t. split; [exact Ht|]. apply in_nc_ins. eauto.
+  Qed.
+
+  Definition SInv (st : sstate) (e : env) (E later : list instr) (defd gcd : list N) : Prop :=
+    ss_zero st = zero /\ ginv (ss_w st) defd gcd /\ defd_rel defd E /\ live gcd E later /\
+    Rel st e later /\ Bd e E /\ rd st zero = false.
+
+  Lemma stream_step_gc idx i st :
+    stream_step circs idx (gc_instr i) st =
+    match gc_wires (ss_w st) (vid i) with Some w3 => Some (with_w st w3) | None => None end.
+  Proof. reflexivity. Qed.
+
+  Lemma gcs_sim s E later : forall G rest st e ret idx defd gcd,
+    Forall (fun g => exists i, g = gc_instr i /\ vconst i = false /\ In (vid i) (nc_ins s) /\
+                     forall x, In x (fdesc steps0 (vid i)) -> ~ In x (ncops_l later)) G ->
+    NoDup (map gcid G) -> (forall g, In g G -> allocated (ss_w st) (gcid g) = true) ->
+    (forall a, In a (nc_ins s) -> In a NC /\ In a (outs_l E ++ map fst args)) ->
+    (forall t, In t later -> In t steps0) ->
+    SInv st e E later defd gcd ->
+    (forall st' gcd' idx', SInv st' e E later defd gcd' -> ss_cs st' = ss_cs st -> ss_ret st' = ss_ret st ->
+        simres (stream_steps circs idx' rest st') (ssa_steps circs rest (e, ret))) ->
+    simres (stream_steps circs idx (G ++ rest) st) (ssa_steps circs (G ++ rest) (e, ret)).
+  Proof.
+    induction G as [|g G IH]; intros rest st e ret idx defd gcd HF Hnd Hal Hs Hlat HI K.
+    - simpl. apply (K st gcd idx); auto.
+    - inversion HF as [|? ? (i & -> & Hc & Hi & Hno) HF']; subst.
+      cbn [map] in Hnd. inversion Hnd as [|? ? Hn Hnd']; subst.
+      cbn [app stream_steps ssa_steps]. rewrite stream_step_gc.
+      change (ssa_step circs (gc_instr i) (e, ret)) with (Some (e, ret)).
+      destruct HI as (Hz & Gi & Hrel & Hl & HR & HB & Hrz).
+      assert (Ha : allocated (ss_w st) (vid i) = true) by (apply (Hal (gc_instr i)); left; reflexivity).
+      apply allocated_lookup in Ha as (en & Le).
+      destruct (Hs _ Hi) as [Hinc Hidef].
+      destruct (gcw_inv (ss_w st) defd gcd (vid i) en Gi Le Hinc) as (w' & Hg & Gi' & Hlk & _).
+      rewrite Hg.
+      apply (IH rest (with_w st w') e ret (S idx) defd (vid i :: gcd) HF' Hnd'); [| exact Hs | exact Hlat | |].
+      + intros g Hg0. unfold allocated. cbn [with_w ss_w]. rewrite Hlk.
+        * apply (Hal g). right. exact Hg0.
+        * intros E0. apply Hn. cbn [gcid gc_instr igc]. rewrite <- E0. apply in_map. exact Hg0.
+      + split; [exact Hz|]. split; [exact Gi'|]. split; [exact Hrel|].
+        split; [intros u [<-|Hu]; [auto | apply Hl, Hu]|].
+        split; [|split; [exact HB | exact Hrz]].
+        intros v b Lb Hv. destruct (HR v b Lb Hv) as [A1 A2].
+        assert (Hvu : v <> vid i).
+        { intros ->. destruct (vused_class later (vid i) Hlat Hv) as [H|H]; [|exact (H Hinc)].
+          apply (Hno (vid i)); [apply self_desc | exact H]. }
+        unfold allocated, ids_of in *. cbn [with_w ss_w]. rewrite Hlk by exact Hvu. split; [exact A1 | exact A2].
+      + intros st' gcd' idx' HI' Hcs Hret. apply (K st' gcd' idx' HI'); [rewrite Hcs | rewrite Hret]; reflexivity.
+  Qed.
+
+  Lemma stream_step_alias idx s st : is_alias_op (iop s) = true ->
+    stream_step circs idx s st =
+    (let '(wires, w1) := operand_ids (ss_w st) (ss_zero st) (iin s) in
+     let '(out, w2) := match iout s with Some o => assigned_ids w1 (vid o) (vbits o) | None => ([], w1) end in
+     match iout s with
+     | None => None
+     | Some o => match alias_ids N (ss_zero st) (iop s) wires (map vcint (iin s)) out (vbits o) with
+                 | Some ids => Some (with_w (with_w st w2) (set_ids w2 (vid o) ids))
+                 | None => None
+                 end
+     end).
+  Proof.
+    intros H. unfold stream_step. destruct (operand_ids (ss_w st) (ss_zero st) (iin s)) as [wires w1].
+    destruct (match iout s with Some o => assigned_ids w1 (vid o) (vbits o) | None => ([], w1) end) as [out w2].
+    destruct (iop s); try discriminate; reflexivity.
+  Qed.
+
+  Lemma ssa_step_alias s e ret : is_alias_op (iop s) = true ->
+    ssa_step circs s (e, ret) =
+    match iout s with
+    | None => None
+    | Some o => match alias_ids bool false (iop s) (map (operand_bits e) (iin s)) (map vcint (iin s))
+                        (repeat false (vbits o)) (vbits o) with
+                | Some b => Some ((vid o, b) :: e, ret)
+                | None => None
+                end
+    end.
+  Proof. intros H. unfold ssa_step. destruct (iop s); try discriminate; reflexivity. Qed.
+
+  Lemma vgarble_parts st step c ins outs :
+    ss_w (vgarble st step c ins outs) = ss_w st /\ ss_zero (vgarble st step c ins outs) = ss_zero st /\
+    ss_ret (vgarble st step c ins outs) = ss_ret st /\
+    ss_cs (vgarble st step c ins outs) = fst (fst (garble_circ bool false unit bit_gatef (ss_cs st) tt c ins outs)).
+  Proof.
+    unfold vgarble, garble_circ_bits.
+    destruct (garble_circ bool false unit bit_gatef (ss_cs st) tt c ins outs) as [[cs' u] sgs]. repeat split.
+  Qed.
+
+  Lemma ids_of_set_ids w v ev ids' : lookup v (whash w) = Some ev -> ids_of (set_ids w v ids') v = ids'.
+  Proof. intros L. unfold set_ids, ids_of. rewrite L. cbn [whash]. rewrite lookup_set_key_eq. reflexivity. Qed.
+
+  Lemma vpos_all s i : value_positions (iop s) (length (iin s)) = seq 0 (length (iin s)) -> In i (iin s) -> In i (vpos_ops s).
+  Proof.
+    intros Hv Hi. apply In_nth_error in Hi as (j & Hj). apply (vpos_at s j i); [|exact Hj].
+    rewrite Hv. apply in_seq. split; [lia|]. apply nth_error_Some. rewrite Hj. discriminate.
+  Qed.
+
+  Lemma sum_bits_length (g : val -> list N) l :
+    (forall i, length (g i) = vbits i) -> length (concat (map g l)) = sum_bits l.
+  Proof.
+    intros H. induction l as [|i t IH]; [reflexivity|]. cbn [map concat sum_bits fold_right]. rewrite app_length, H.
+    unfold sum_bits in IH. rewrite IH. reflexivity.
+  Qed.
+
+  Lemma step_sim s E later st e idx defd gcd :
+    steps0 = E ++ s :: later -> SInv st e E (s :: later) defd gcd -> ss_ret st = [] ->
+    match stream_step circs idx s st, ssa_step circs s (e, []) with
+    | Some st', Some (e', ret') =>
+        (exists defd', SInv st' e' (E ++ [s]) later defd' gcd) /\
+        (forall a, In a (nc_ins s) -> allocated (ss_w st') a = true) /\
+        map (rd st') (ss_ret st') = ret' /\ (iop s <> ORet -> ss_ret st' = [] /\ ret' = [])
+    | None, None => True
+    | _, _ => False
+    end.
+  Proof.
+    intros E0 (Hz & Gi & Hrel & Hl & HR & HB & Hrz) Hret0.
+    assert (Hin : In s steps0) by (rewrite E0; apply in_or_app; right; left; reflexivity).
+    pose proof (proj1 (Forall_forall _ _) Hsok s Hin) as [Hshape Hops].
+    pose proof (proj1 (Forall_forall _ _) Hsok2 s Hin) as (Htab & Hslice & Hgen).
+    destruct (Hwfl E s later E0) as [Wi Wo].
+    assert (Hncs : forall a, In a (nc_ins s) -> In a NC /\ In a (outs_l E ++ map fst args)).
+    { intros a Ha. specialize (Wi a Ha). split; [|exact Wi]. apply HNC.
+      apply in_app_or in Wi as [H|H]; apply in_or_app; [left|auto].
+      rewrite E0. unfold outs_l in *. rewrite flat_map_app. apply in_or_app. auto. }
+    assert (Hnotgcd : forall a, In a (ncops_l (s :: later)) -> ~ In a gcd).
+    { intros a Ha Hg. destruct (Hl a Hg) as (_ & _ & Hno). apply (Hno a); [apply self_desc | exact Ha]. }
+    assert (Hopnd : forall i, In i (iin s) -> opnd_ok (ss_w st) i).
+    { intros i Hi. destruct (Hops i Hi) as [H1 H2]. split; [|split; [exact H1 | exact H2]].
+      intros Hc. assert (Ha : In (vid i) (nc_ins s)) by (apply in_nc_ins; eauto).
+      destruct (Hncs _ Ha) as [Hn Hd]. apply (g_alloc _ _ _ Gi _ Hn). split; [apply Hrel; auto|].
+      apply Hnotgcd. unfold ncops_l. cbn [flat_map]. apply in_or_app. auto. }
+    assert (Hlater_in : forall t, In t (s :: later) -> In t steps0).
+    { intros t Ht. rewrite E0. apply in_or_app. right. exact Ht. }
+    assert (Hopcls : forall t i, In t (s :: later) -> In i (iin t) -> In (vid i) (ncops_l (s :: later)) \/ ~ In (vid i) NC).
+    { intros t i Ht Hi. destruct (proj1 (Forall_forall _ _) Hsok t (Hlater_in t Ht)) as [_ Ho].
+      destruct (vconst i) eqn:C; [right; apply (Ho i Hi), C|].
+      left. unfold ncops_l. apply in_flat_map. exists t. split; [exact Ht|]. apply in_nc_ins. eauto. }
+    assert (Hnodoom : forall v, In v (ncops_l (s :: later)) \/ ~ In v NC ->
+              ~ (exists u, In u gcd /\ In v (fdesc steps0 u))).
+    { intros v Hv (u & Hu & Hd). destruct (Hl u Hu) as (Hun & _ & Hno). destruct Hv as [Hv|Hv].
+      - exact (Hno v Hd Hv).
+      - apply Hv. eapply fdesc_nc; eauto. }
+    assert (Hbound : forall i, In i (vpos_ops s) -> exists b, lookup (vid i) e = Some b).
+    { intros i Hi. apply HB. destruct (vconst i) eqn:C.
+      - right. apply (Htab i Hi C).
+      - left. apply Wi. apply in_nc_ins. exists i. repeat split; auto. apply vpos_in, Hi. }
+    assert (Hl' : live gcd (E ++ [s]) later).
+    { intros u Hu. destruct (Hl u Hu) as (L1 & L2 & L3). split; [exact L1|]. split.
+      - rewrite outs_l_app. apply in_app_or in L2 as [H|H]; apply in_or_app; [left; apply in_or_app; auto | auto].
+      - intros x Hx Hi. apply (L3 x Hx). unfold ncops_l. cbn [flat_map]. apply in_or_app. auto. }
+    assert (Hcls : (iop s = ORet /\ iout s = None /\ iret s = []) \/
+                   (exists o, iout s = Some o /\ iret s = [] /\ (iop s = OGen \/ is_alias_op (iop s) = true))).
+    { destruct (iop s); try contradiction; try (right; destruct Hshape as (o & H1 & H2); exists o; auto). left. tauto. }
+    destruct (operand_ids (ss_w st) zero (iin s)) as [wires w1] eqn:Eo.
+    destruct (operand_ids_inv _ _ _ _ _ _ Gi Hopnd Eo) as (defd1 & G1 & D1 & X1 & Al1 & Ew).
+    assert (Hrel1 : defd_rel defd1 E) by (intros k Hk; rewrite D1 by exact Hk; apply Hrel, Hk).
+    assert (Hwb : forall i, In i (vpos_ops s) ->
+              map (rd st) (pad_operand N zero (vsigned i) (vbits i) (ids_of w1 (vid i))) = operand_bits e i).
+    { intros i Hi. eapply operand_rel; eauto. }
+    destruct Hcls as [(Eop & Eout & Eret)|(o & Eout & Eret & Ecl)].
+    - (* ret *)
+      unfold stream_step, ssa_step. rewrite Hz, Eo, Eout, Eop.
+      assert (Hlat : later = []) by (eapply Hretlast; eauto). subst later.
+      assert (Hall : map (rd st) (concat wires) = concat (map (operand_bits e) (iin s))).
+      { rewrite concat_map, Ew, map_map. f_equal. apply map_ext_in. intros i Hi. apply Hwb.
+        apply vpos_all; [rewrite Eop; reflexivity | exact Hi]. }
+      split; [|split; [|split]].
+      + exists defd1. split; [reflexivity|]. split; [exact G1|]. split.
+        * intros k Hk. rewrite outs_l_app. unfold outs_l at 2. cbn [flat_map]. unfold outs_of. rewrite Eout, Eret.
+          cbn [map app]. rewrite app_nil_r. apply Hrel1, Hk.
+        * split; [exact Hl'|]. split; [intros v b _ []|]. split; [|exact Hrz].
+          intros k Hk. apply HB. rewrite outs_l_app in Hk. unfold outs_l at 2 in Hk. cbn [flat_map] in Hk.
+          unfold outs_of in Hk. rewrite Eout, Eret in Hk. cbn [map app] in Hk. rewrite !app_nil_r in Hk. exact Hk.
+      + intros a Ha. apply in_nc_ins in Ha as (i & Hi & _ & <-). apply Al1, Hi.
+      + cbn [ss_ret]. rewrite Hret0. cbn [app]. exact Hall.
+      + intros Hne. congruence.
+    - (* a step with a new result value *)
+      assert (Hov : In (vid o) (outs_of s)) by (unfold outs_of; rewrite Eout; left; reflexivity).
+      assert (HoNC : In (vid o) NC).
+      { apply HNC, in_or_app. left. unfold outs_l. apply in_flat_map. exists s. auto. }
+      assert (HoNew : ~ In (vid o) (outs_l E ++ map fst args)) by (apply Wo, Hov).
+      assert (Lo : lookup (vid o) (whash w1) = None).
+      { destruct (lookup (vid o) (whash w1)) eqn:L; [|reflexivity]. exfalso. apply HoNew, (Hrel1 _ HoNC).
+        apply (g_alloc _ _ _ G1 _ HoNC). unfold allocated. rewrite L. reflexivity. }
+      assert (Hog : In (vid o) NC -> ~ In (vid o) gcd).
+      { intros _ Hg. destruct (Hl _ Hg) as (_ & Hd & _). exact (HoNew Hd). }
+      destruct (assigned_ids w1 (vid o) (vbits o)) as [out w2] eqn:Ea.
+      destruct (aid_new _ _ _ _ _ _ _ G1 Lo Hog Ea) as (G2 & I1 & Ind & I2 & I3 & I4 & I5 & I6 & (ev & Lev & Ewv & Eiv & Hobv)).
+      assert (Hlen_out : length out = vbits o).
+      { destruct (aid_new_shape _ _ _ _ _ Lo Ea) as (b0 & -> & _). apply block_length. }
+      assert (Hrel2 : defd_rel (vid o :: defd1) (E ++ [s])).
+      { intros k Hk. unfold outs_l. rewrite flat_map_app. cbn [flat_map]. rewrite app_nil_r.
+        unfold outs_of at 2. rewrite Eout, Eret. cbn [map app]. specialize (Hrel1 k Hk). fold (outs_l E). split.
+        - intros [<-|H]; [apply in_or_app; left; apply in_or_app; right; left; reflexivity|].
+          apply Hrel1 in H. apply in_app_or in H as [H|H]; apply in_or_app; [left; apply in_or_app; auto | auto].
+        - intros H. apply in_app_or in H as [H|H].
+          + apply in_app_or in H as [H|[H|[]]]; [right; apply Hrel1, in_or_app; auto | left; exact H].
+          + right. apply Hrel1, in_or_app. auto. }
+      assert (Hne : forall i, In i (iin s) -> vid i <> vid o).
+      { intros i Hi Heq. pose proof (Al1 i Hi) as A. unfold allocated in A. rewrite Heq, Lo in A. discriminate. }
+      assert (Halloc2 : forall a, In a (nc_ins s) -> allocated w2 a = true).
+      { intros a Ha. apply in_nc_ins in Ha as (i & Hi & _ & <-). rewrite I3 by (apply Hne, Hi). apply Al1, Hi. }
+      (* values of the old environment that are still used keep their ids through w1, w2 *)
+      assert (Hkeep : forall v, allocated (ss_w st) v = true ->
+                 v <> vid o /\ ids_of w2 v = ids_of (ss_w st) v /\ allocated w2 v = true).
+      { intros v Ha. destruct X1 as (X11 & X12 & X13).
+        assert (Ha1 : allocated w1 v = true).
+        { apply allocated_lookup in Ha as (e0 & He0). destruct (X11 _ _ He0) as (e1 & He1 & _). apply allocated_lookup. eauto. }
+        assert (Hvo : v <> vid o) by (intros ->; unfold allocated in Ha1; rewrite Lo in Ha1; discriminate).
+        split; [exact Hvo|]. split; [rewrite I2 by exact Hvo; apply X12, Ha | rewrite I3 by exact Hvo; exact Ha1]. }
+      assert (HBd2 : forall b', Bd ((vid o, b') :: e) (E ++ [s])).
+      { intros b' k Hk. cbn [lookup]. destruct (N.eqb k (vid o)) eqn:Ek; [eauto|]. apply N.eqb_neq in Ek. apply HB.
+        destruct Hk as [Hk|Hk]; [|auto]. rewrite outs_l_app in Hk. unfold outs_l at 2 in Hk. cbn [flat_map] in Hk.
+        unfold outs_of in Hk. rewrite Eout, Eret in Hk. cbn [map app] in Hk. rewrite ?app_nil_r in Hk.
+        apply in_app_or in Hk as [Hk|Hk]; [|left; apply in_or_app; auto].
+        apply in_app_or in Hk as [Hk|[Hk|[]]]; [left; apply in_or_app; auto|].
+        congruence. }
+      destruct (is_alias_op (iop s)) eqn:Eal.
+      + (* ---- alias *)
+        rewrite (stream_step_alias idx s st Eal), (ssa_step_alias s e [] Eal), Hz, Eo, Eout, Ea.
+        assert (Hchain : option_map (map (rd st)) (alias_ids N zero (iop s) wires (map vcint (iin s)) out (vbits o))
+                         = alias_ids bool false (iop s) (map (operand_bits e) (iin s)) (map vcint (iin s))
+                             (repeat false (vbits o)) (vbits o)).
+        { rewrite (alias_ids_map N bool (rd st) zero), Hrz.
+          rewrite (alias_ids_old false (iop s) _ _ (map (rd st) out) (repeat false (vbits o)) (vbits o)).
+          - apply alias_ids_positions; [|exact Eal]. rewrite map_length, Ew, map_length. intros j Hj.
+            destruct (nth_error (iin s) j) as [i|] eqn:Ej.
+            + rewrite map_map. rewrite (nth_map_error _ _ j i [] Ej), (nth_map_error _ _ j i [] Ej).
+              apply Hwb. eapply vpos_at; eauto.
+            + apply nth_error_None in Ej. rewrite !nth_overflow by (rewrite ?map_length; exact Ej). reflexivity.
+          - rewrite map_length, repeat_length. exact Hlen_out.
+          - rewrite map_length. exact Hlen_out.
+          - intros Hs. destruct (Hslice Hs o Eout) as (_ & _ & H3). exact H3. }
+        destruct (alias_ids N zero (iop s) wires (map vcint (iin s)) out (vbits o)) as [ids'|] eqn:Eai;
+          cbn [option_map] in Hchain; rewrite <- Hchain; [|exact I].
+        assert (Hprov : forall id, In id ids' ->
+                  exists k e', lookup k (whash w2) = Some e' /\ ~ In k Kt /\ In id (oblock e') /\ related k (vid o)).
+        { assert (Hwires : wires = map (fun i => pad_operand N zero (vsigned i) (vbits i) (ids_of w2 (vid i))) (iin s)).
+          { rewrite Ew. apply map_ext_in. intros i Hi. rewrite I2 by (apply Hne, Hi). reflexivity. }
+          assert (Hal2 : forall i, In i (iin s) -> allocated w2 (vid i) = true).
+          { intros i Hi. rewrite I3 by (apply Hne, Hi). apply Al1, Hi. }
+          assert (Hconst : forall i, In i (iin s) -> vconst i = true -> ~ In (vid i) NC).
+          { intros i Hi. apply (Hops i Hi). }
+          assert (Hopdoom : forall i, In i (iin s) -> ~ (exists u, In u gcd /\ In (vid i) (fdesc steps0 u))).
+          { intros i Hi. apply Hnodoom. apply (Hopcls s i); [left; reflexivity | exact Hi]. }
+          exact (alias_prov_ok s o w2 (vid o :: defd1) gcd wires out ids' Hin Eal Eout G2
+                   (ex_intro _ ev (conj Lev Hobv)) Hwires Hal2 Hopdoom Hconst Eai). }
+        destruct (setids_inv w2 _ gcd (vid o) ev ids' G2 Lev Ewv HoNC) as (G3 & L3 & A3).
+        { intros old Ho. rewrite Eiv in Ho. injection Ho as <-. eapply alias_ids_length; eauto. }
+        { right. exact Hprov. }
+        assert (Hrd : forall id, rd (with_w (with_w st w2) (set_ids w2 (vid o) ids')) id = rd st id) by reflexivity.
+        split; [|split; [|split]].
+        * exists (vid o :: defd1). split; [exact Hz|]. split; [exact G3|]. split; [exact Hrel2|]. split; [exact Hl'|].
+          split; [|split; [apply HBd2 | exact Hrz]].
+          intros v b Lb Hv. cbn [lookup] in Lb. cbn [with_w ss_w].
+          destruct (N.eqb v (vid o)) eqn:Ev.
+          -- apply N.eqb_eq in Ev. subst v. injection Lb as <-. split; [rewrite A3; exact I4|].
+             rewrite (ids_of_set_ids w2 (vid o) ev ids' Lev). apply (map_ext (rd _) (rd st)). exact Hrd.
+          -- apply N.eqb_neq in Ev. destruct (HR v b Lb (vused_cons s later v Hv)) as [A1 A2].
+             destruct (Hkeep v A1) as (_ & K2 & K3). split; [rewrite A3; exact K3|].
+             unfold ids_of. rewrite L3 by exact Ev. fold (ids_of w2 v). rewrite K2.
+             rewrite <- A2. apply map_ext. exact Hrd.
+        * intros a Ha. cbn [with_w ss_w]. rewrite A3. apply Halloc2, Ha.
+        * cbn [with_w ss_ret]. rewrite Hret0. reflexivity.
+        * intros _. cbn [with_w ss_ret]. auto.
+      + (* ---- a circuit step *)
+        destruct Ecl as [Eg|Ea']; [|congruence].
+        unfold stream_step, ssa_step. rewrite Hz, Eo, Eout, Ea, Eg.
+        destruct (Hgen Eg o Eout) as (Hcwf & Hcni & Hcno & Hcsep).
+        set (c := cc_c (nth (icirc s) circs cc0)) in *.
+        destruct (vgarble_parts (with_w st w2) idx c (concat wires) out) as (V1 & V2 & V3 & V4).
+        set (st' := vgarble (with_w st w2) idx c (concat wires) out) in *.
+        cbn [with_w ss_w ss_zero ss_ret ss_cs] in V1, V2, V3, V4.
+        assert (Hinsown : forall id, In id (concat wires) -> id = zero \/ In id (owned_ids (whash w1))).
+        { intros id Hid. apply in_concat in Hid as (wj & Hwj & Hid). rewrite Ew in Hwj.
+          apply in_map_iff in Hwj as (i & <- & Hi). apply pad_operand_incl in Hid as [->|Hid]; [auto|]. right.
+          pose proof (Al1 i Hi) as Ha. apply allocated_lookup in Ha as (ei & Li).
+          destruct (g_prov _ _ _ G1 _ _ Li) as [Hd|Hp].
+          - exfalso. apply (Hnodoom (vid i)); [apply (Hopcls s i); [left; reflexivity | exact Hi] | exact Hd].
+          - destruct (Hp id Hid) as (k & e' & P1 & P2 & P3 & _). eapply owned_in; eauto. }
+        assert (Hzown : In zero (owned_ids (whash w1))).
+        { destruct (g_z _ _ _ G1) as (ez & eo & Z1 & Z2 & _). apply (owned_in _ zk ez); auto. rewrite Z2. left. reflexivity. }
+        destruct (stream_sim_circuit c (concat wires) out) with (cs := ss_cs st) as [S1 S2].
+        { rewrite Ew. rewrite (sum_bits_length (fun i => pad_operand N zero (vsigned i) (vbits i) (ids_of w1 (vid i)))).
+          - symmetry. exact Hcni.
+          - intros i. apply pad_operand_length. }
+        { rewrite Hlen_out. symmetry. exact Hcno. }
+        { exact Ind. }
+        { intros id Ho Hi. destruct (Hinsown id Hi) as [->|H]; [exact (I6 _ Ho Hzown) | exact (I6 _ Ho H)]. }
+        { exact Hcwf. }
+        { exact Hcsep. }
+        cbv zeta in S1, S2. rewrite <- V4 in S1, S2.
+        fold (rd st) in S1. fold (rd st') in S1.
+        assert (Hins : map (rd st) (concat wires) = concat (map (operand_bits e) (iin s))).
+        { rewrite concat_map, Ew, map_map. f_equal. apply map_ext_in. intros i Hi. apply Hwb.
+          apply vpos_all; [rewrite Eg; reflexivity | exact Hi]. }
+        assert (Hframe : forall id, ~ In id out -> rd st' id = rd st id) by (intros id Hid; apply S2, Hid).
+        split; [|split; [|split]].
+        * exists (vid o :: defd1). split; [rewrite V2; exact Hz|]. split; [rewrite V1; exact G2|].
+          split; [exact Hrel2|]. split; [exact Hl'|]. split; [|split; [apply HBd2|]].
+          -- intros v b Lb Hv. cbn [lookup] in Lb. rewrite V1.
+             destruct (N.eqb v (vid o)) eqn:Ev.
+             ++ apply N.eqb_eq in Ev. subst v. injection Lb as <-. split; [exact I4|].
+                rewrite I1. unfold rd at 1. change (map (fun id => sfind false (cs_wires (ss_cs st')) id) out
+                  = eval_plain c (concat (map (operand_bits e) (iin s)))). rewrite <- Hins. exact S1.
+             ++ apply N.eqb_neq in Ev. destruct (HR v b Lb (vused_cons s later v Hv)) as [A1 A2].
+                destruct (Hkeep v A1) as (_ & K2 & K3). split; [exact K3|].
+                rewrite K2, <- A2. apply map_ext_in. intros id Hid. apply Hframe. intros Ho.
+                (* the ids of a value that is still used are owned *)
+                assert (Hidw1 : In id (ids_of w1 v)).
+                { destruct X1 as (_ & X12 & _). rewrite (X12 _ A1). exact Hid. }
+                assert (Hal1 : allocated w1 v = true).
+                { rewrite <- (I3 v) by (intros ->; congruence). exact K3. }
+                apply allocated_lookup in Hal1 as (e1 & Le1).
+                destruct (g_prov _ _ _ G1 _ _ Le1) as [Hd|Hp].
+                ** apply (Hnodoom v); [|exact Hd].
+                   destruct (vused_class later v (fun t Ht => Hlater_in t (or_intror Ht)) Hv) as [H|H]; [left|auto].
+                   unfold ncops_l. cbn [flat_map]. apply in_or_app. auto.
+                ** destruct (Hp id Hidw1) as (k & e' & P1 & P2 & P3 & _). apply (I6 id Ho). eapply owned_in; eauto.
+          -- rewrite Hframe; [exact Hrz|]. intros Ho. exact (I6 _ Ho Hzown).
+        * intros a Ha. rewrite V1. apply Halloc2, Ha.
+        * rewrite V3, Hret0. reflexivity.
+        * intros _. rewrite V3, Hret0. auto.
+  Qed.
+
+  Lemma run_sim : forall later g, gcform steps0 later g ->
+    forall E st e idx defd gcd, steps0 = E ++ later -> SInv st e E later defd gcd -> ss_ret st = [] ->
+    simres (stream_steps circs idx g st) (ssa_steps circs g (e, [])).
+  Proof.
+    induction 1 as [|s later G g' Hf IH HG]; intros E st e idx defd gcd E0 HI Hret0.
+    - cbn. rewrite Hret0. reflexivity.
+    - destruct HG as [HGF HGN].
+      destruct (Hwfl E s later E0) as [Wi Wo].
+      cbn [stream_steps ssa_steps].
+      pose proof (step_sim s E later st e idx defd gcd E0 HI Hret0) as HS.
+      destruct (stream_step circs idx s st) as [st'|]; destruct (ssa_step circs s (e, [])) as [[e' ret']|];
+        try contradiction; [|exact I].
+      destruct HS as ((defd' & HI') & Hal' & Hretrel & Hnr).
+      assert (E1 : steps0 = (E ++ [s]) ++ later) by (rewrite <- app_assoc; exact E0).
+      assert (Hs' : forall a, In a (nc_ins s) -> In a NC /\ In a (outs_l (E ++ [s]) ++ map fst args)).
+      { intros a Ha. specialize (Wi a Ha). split.
+        - apply HNC. apply in_app_or in Wi as [H|H]; apply in_or_app; [left|auto].
+          rewrite E0, outs_l_app. apply in_or_app. auto.
+        - rewrite outs_l_app. apply in_app_or in Wi as [H|H]; apply in_or_app; [left; apply in_or_app; auto | auto]. }
+      assert (Hlat : forall t, In t later -> In t steps0).
+      { intros t Ht. rewrite E0. apply in_or_app. right. right. exact Ht. }
+      assert (Halg : forall g0, In g0 G -> allocated (ss_w st') (gcid g0) = true).
+      { intros g0 Hg0. rewrite Forall_forall in HGF. destruct (HGF g0 Hg0) as (i & -> & _ & Hi & _).
+        cbn [gcid gc_instr igc]. apply Hal', Hi. }
+      assert (Hcase : iop s = ORet \/ iop s <> ORet) by (destruct (iop s); auto; right; discriminate).
+      destruct Hcase as [Hr|Hr].
+      + assert (later = []) by (eapply Hretlast; eauto). subst later.
+        assert (Hg' : g' = []) by (inversion Hf; reflexivity). rewrite Hg'.
+        apply (gcs_sim s (E ++ [s]) [] G [] st' e' ret' (S idx) defd' gcd HGF HGN Halg Hs' Hlat HI').
+        intros st'' gcd' idx' _ Hcs Hrt. cbn [stream_steps ssa_steps simres].
+        rewrite Hrt, <- Hretrel. apply map_ext. intros id. unfold rd. rewrite Hcs. reflexivity.
+      + destruct (Hnr Hr) as [Hr1 Hr2]. rewrite Hr2.
+        apply (gcs_sim s (E ++ [s]) later G g' st' e' [] (S idx) defd' gcd HGF HGN Halg Hs' Hlat HI').
+        intros st'' gcd' idx' HI'' _ Hrt. apply (IH (E ++ [s]) st'' e' idx' defd' gcd' E1 HI'').
+        rewrite Hrt. exact Hr1.
+  Qed.
 End Dyn.
+
+
+
+
+
 
 (* ------------------------------------------------------------------ *)
 (** * The initial state of Program.Stream satisfies the invariant *)
@@ -1341,3 +1800,87 @@ Proof.
   - intros k Hk. reflexivity.
   - intros u [].
 Qed.
+
+(* ------------------------------------------------------------------ *)
+(** * The initial store and the initial reference environment *)
+
+Fixpoint argpos (al : list (N * nat)) (off : nat) : list (N * nat * nat) :=
+  match al with
+  | [] => []
+  | (k, n) :: t => (k, n, off) :: argpos t (off + n)
+  end.
+
+Definition sumn (al : list (N * nat)) : nat := fold_right (fun a acc => snd a + acc) 0 al.
+
+Lemma total_sumn al : total al = N.of_nat (sumn al).
+Proof.
+  induction al as [|[k n] t IH]; [reflexivity|]. cbn [total sumn fold_right snd]. fold (total t). fold (sumn t).
+  rewrite IH. lia.
+Qed.
+
+Lemma argents_argpos al : forall off,
+  argents al (N.of_nat off) = map (fun q => (fst (fst q), mkEntry None (Some (block (N.of_nat (snd q)) (snd (fst q)))) None)) (argpos al off).
+Proof.
+  induction al as [|[k n] t IH]; intros off; [reflexivity|]. cbn [argents argpos map fst snd].
+  f_equal. rewrite <- IH. f_equal. lia.
+Qed.
+
+Lemma argpos_bound al : forall off k n o, In (k, n, o) (argpos al off) -> off <= o /\ o + n <= off + sumn al /\ In (k, n) al.
+Proof.
+  induction al as [|[k0 n0] t IH]; intros off k n o H; [destruct H|]. cbn [argpos] in H. cbn [sumn fold_right snd]. fold (sumn t).
+  destruct H as [H|H].
+  - injection H as <- <- <-. repeat split; try lia. left. reflexivity.
+  - destruct (IH _ _ _ _ H) as (A & B & C). repeat split; try lia. right. exact C.
+Qed.
+
+Lemma argpos_keys al : forall off, map (fun q => fst (fst q)) (argpos al off) = map fst al.
+Proof. induction al as [|[k n] t IH]; intros off; [reflexivity|]. cbn. rewrite IH. reflexivity. Qed.
+
+Section InitSim.
+  Variable xy : list bool.
+
+  Lemma ssa_args_fold al : forall e off,
+    fold_left (fun (acc : env * nat) (a : N * nat) => let '(e, off) := acc in
+                 ((fst a, firstn (snd a) (skipn off xy ++ repeat false (snd a))) :: e, (off + snd a)%nat)) al (e, off)
+    = (rev (map (fun q => (fst (fst q), firstn (snd (fst q)) (skipn (snd q) xy ++ repeat false (snd (fst q))))) (argpos al off)) ++ e,
+       off + sumn al).
+  Proof.
+    induction al as [|[k n] t IH]; intros e off.
+    - cbn. f_equal. lia.
+    - cbn [fold_left fst snd]. rewrite IH. cbn [argpos map rev fst snd sumn fold_right]. fold (sumn t).
+      rewrite <- app_assoc. cbn [app]. f_equal. lia.
+  Qed.
+
+  Lemma ssa_consts_fold : forall cs e,
+    NoDup (map fst cs) -> (forall k, In k (map fst cs) -> lookup k e = None) ->
+    fold_left (fun (e : env) (c : N * list bool) => match lookup (fst c) e with Some _ => e | None => c :: e end) cs e = rev cs ++ e.
+  Proof.
+    induction cs as [|[k b] t IH]; intros e Hnd Hnew; [reflexivity|].
+    cbn [fold_left fst]. inversion Hnd as [|? ? Hk Hnd']; subst.
+    rewrite (Hnew k (or_introl eq_refl)). rewrite IH; [|exact Hnd'|].
+    - cbn [rev]. rewrite <- app_assoc. reflexivity.
+    - intros k' Hk'. cbn [lookup]. destruct (N.eqb k' k) eqn:E.
+      + apply N.eqb_eq in E. subst. contradiction.
+      + apply Hnew. right. exact Hk'.
+  Qed.
+
+  (* the store after the argument wires are set *)
+  Lemma init_store_find l : forall m id,
+    sfind false (fold_left (fun (m : PositiveMap.t bool) (i : nat) => sadd m (N.of_nat i) (nth i xy false)) l m) id
+    = if existsb (fun i => N.eqb (N.of_nat i) id) l then nth (N.to_nat id) xy false else sfind false m id.
+  Proof.
+    induction l as [|i t IH]; intros m id; [reflexivity|]. cbn [fold_left existsb]. rewrite IH.
+    destruct (existsb (fun i0 => N.eqb (N.of_nat i0) id) t) eqn:Et; [rewrite orb_true_r; reflexivity|].
+    rewrite orb_false_r. destruct (N.eqb (N.of_nat i) id) eqn:E.
+    - apply N.eqb_eq in E. subst id. rewrite sfind_sadd_eq, Nat2N.id. reflexivity.
+    - apply N.eqb_neq in E. apply sfind_sadd_neq. exact E.
+  Qed.
+
+  Lemma gate_zero_one (cs : cstate bool) (z : N) (neg : bool) :
+    cs_wires (fst (garble_circ_bits cs (mkCircuit 2 1 1 [mkGate 0 0 1 (if neg then XNOR else XOR)]) [0%N] [z]))
+    = sadd (cs_wires cs) z neg.
+  Proof.
+    unfold garble_circ_bits, garble_circ, init_circuit. cbn [nwires gates length].
+    destruct (cs_tmplen cs <? 2); destruct neg; cbn; destruct (sfind false (cs_wires cs) 0); reflexivity.
+  Qed.
+End InitSim.
